@@ -40,6 +40,18 @@ def gen_cases(ctx):
         exc = 'trypsin_exception' if (rule == 'trypsin' and rng.random() < 0.6) else None
         s = R.gen_protein(rng, rule, rng.randint(0, 50), extra='UX*', bias=0.75)
         cases.append(dict(kind='sites_range', rule=rule, exc=exc, seq=s))
+    for i in range(n_sites // 2):
+        rule = names[i % len(names)] if rng.random() < 0.7 else 'trypsin'
+        exc = 'trypsin_exception' if (rule == 'trypsin' and rng.random() < 0.7) else None
+        s = R.gen_protein(rng, rule, rng.randint(1, 40), extra='UX***', bias=0.7)
+        if rng.random() < 0.15:
+            s = '*' + s
+        if rng.random() < 0.1:
+            s = rng.choice(['*', 'K', '*K', 'K*', 'R*P'])
+        given = None
+        if rng.random() < 0.25:
+            given = sorted(rng.sample(range(0, len(s) + 2), min(len(s) + 2, rng.randint(0, 4))))
+        cases.append(dict(kind='aux', rule=rule, exc=exc, seq=s, given=given, start=rng.randint(0, len(s))))
     for i in range(n_cleave):
         rule = names[i % len(names)] if rng.random() < 0.6 else 'trypsin'
         exc = 'trypsin_exception' if (rule == 'trypsin' and rng.random() < 0.6) else None
@@ -126,6 +138,10 @@ def oracle_req(c):
         return ('sites', [c['rule'], c['exc'], c['seq']])
     if c['kind'] == 'sites_range':
         return ('sites_range', [c['rule'], c['exc'], c['seq']])
+    if c['kind'] == 'aux':
+        given = [] if c['given'] is None else [c['given']]
+        a = [c['rule'], c['exc'], given, c['seq']]
+        return ('c10_aux', [a, [c['rule'], c['exc'], c['start'], c['seq']], [c['exc'], c['seq']]])
     lim = [c['k'], c['mw4'], c['min_len'], c['max_len']]
     if c['kind'] == 'cleave':
         return ('cleave', [c['rule'], c['exc'], lim, c['nf'], c['seq']])
@@ -137,6 +153,12 @@ def canon_model(c, m):
         return m
     if c['kind'] == 'sites_range':
         return 'ValueError' if m[0] else m[1]
+    if c['kind'] == 'aux':
+        al, alr, first, first_cleave, exs = m
+        out = {'all': al, 'all_range': 'ValueError' if alr[0] else alr[1], 'first': first,
+               'first_cleave': first_cleave, 'exc_sites': exs}
+        # find_first_cleave_or_stop_site_with_range: min over (first cleavage site with its range, first stop) by site
+        return out
     if c['kind'] == 'pool_cli':
         pools = [('ValueError' if r else sorted(set(O.U(p) for p in ps))) for r, ps in m]
         return {'index': pools, 'fly': pools}
@@ -149,6 +171,13 @@ def canon_model(c, m):
 def canon_impl(c, r):
     if isinstance(r, dict) and '__exc__' in r:
         return r['__exc__']
+    if c['kind'] == 'aux':
+        r = dict(r)
+        fr = r.pop('first_range')
+        # first_range's site component must agree with 'first' unless the range pairing raised
+        if fr != 'ValueError' and fr[0] != r['first']:
+            r['first_range_site_mismatch'] = fr
+        return r
     return r
 
 def compare(ctx, cases):
@@ -169,7 +198,7 @@ def run(ctx):
     for c, r in zip(cases, impl):
         key = c['kind'] + ('/short' if c.get('short') else '')
         dist[key] = dist.get(key, 0) + 1
-        if isinstance(r, list) and len(r) > 0:
+        if (isinstance(r, list) and len(r) > 0) or (isinstance(r, dict) and (r.get('all') or r.get('index'))):
             nontriv.add(json.dumps(c, sort_keys=True))
     violations = []
     for c, a, b in bad[:10]:
